@@ -3,7 +3,7 @@ From Coq Require Import NArith ZArith List Bool Arith Lia.
 From Snap.Array Require Import ArrayDefs SyncModel.
 From Snap.Scan Require Import ScanModel PrehashModel.
 Import ListNotations.
-Open Scope N_scope.
+Local Open Scope N_scope.
 
 Definition ex_hf (x : bid) (l : N) : hval := HReal (x * 4096 + l).
 Definition ex_base (n : N) : N := n mod 100.          (* path ids 1xx, 2xx ... share the base name xx *)
